@@ -3,6 +3,10 @@
 package calcium
 
 import (
+	"sync/atomic"
+
+	"github.com/panjf2000/ants/v2"
+
 	"github.com/projecteru2/core/resource"
 	"github.com/projecteru2/core/store"
 	"github.com/projecteru2/core/wal"
@@ -33,3 +37,27 @@ func (c *Calcium) VerifSetWAL(w wal.WAL) { c.wal = w }
 // VerifPoolRunning reports the number of goroutines of c's worker pool that are
 // currently running a task (0 = every background task has finished).
 func (c *Calcium) VerifPoolRunning() int { return c.pool.Running() }
+
+// VerifInstrumentPool replaces c's worker pool by an equivalent one (same size, same
+// non-blocking mode as utils.NewPool) whose tasks are counted, and returns a function
+// reporting how many tasks have started and not yet finished (a task is handed to its worker
+// goroutine synchronously by Invoke, so the gap between submission and start is microseconds). Call it right
+// after New, before any operation. (ants' Running() also counts idle cached workers, so it
+// cannot tell when the background tasks of an operation are done.)
+func (c *Calcium) VerifInstrumentPool() (inflight func() int64, err error) {
+	var n atomic.Int64
+	p, err := ants.NewPoolWithFunc(c.config.MaxConcurrency, func(i any) {
+		n.Add(1)
+		defer n.Add(-1)
+		if f, ok := i.(func()); ok {
+			f()
+		}
+	}, ants.WithNonblocking(true))
+	if err != nil {
+		return nil, err
+	}
+	old := c.pool
+	c.pool = p
+	old.Release()
+	return n.Load, nil
+}
